@@ -190,7 +190,7 @@ Definition astep (a : astate) (e : event) : aout :=
   match e with
   | EEnter f => a_enter a f
   | EExit => a_exit a
-  | EDeclare decl x => a_declare a decl x
+  | EDeclare decl x => if decl =? NoDecl then AStuck else a_declare a decl x
   | EUse x => a_use a x
   | EMarkArgs => a_mark_args a
   | _ => AStuck
